@@ -399,8 +399,39 @@ def impl_inc(case, world):
         shutil.rmtree(real, ignore_errors=True)
     return json.loads(json.dumps(res).replace(real, INC_VROOT))
 
+def inc_unsafety(case):
+    """from the documents alone (not from the label of the case, which shrinking does not keep true): True when every file with dynamic
+    nodes is reached only through unsafe include / !rec entries, False when through safe ones only, None when mixed or not at all"""
+    dyn_files = {nm for nm, docs in case['files'] if any(k in json.dumps(docs) for k in ('"call"', '"eval"', '"bind"'))}
+    flags = []
+    def walk(n, unsafe):
+        unsafe = unsafe or (n.get('kw') or {}).get('safe') is False
+        is_inc = (n.get('t') or {}).get('k') == 'include' or n.get('txt') == '!rec'
+        if is_inc:
+            entries = n['q'] if 'q' in n else [n]
+            for e in entries:
+                nm = e['s'].get('l', e['s'].get('x')) if 's' in e else None
+                if nm in dyn_files:
+                    flags.append(unsafe or (e.get('kw') or {}).get('safe') is False)
+            return
+        for c in ([c for _, c in n['m']] if 'm' in n else n.get('q', [])):
+            walk(c, unsafe)
+    for d in case['docs']:
+        walk(d['raw'], d.get('safe') is False)
+    if not flags or (any(flags) and not all(flags)):
+        return None
+    return all(flags)
+
 def oracle_inc(case, io):
     how = case.get('how')
+    u = inc_unsafety(case)
+    if u is None:
+        return None
+    how = how if (u and how != 'none') else ('derived' if u else 'none')
+    if case.get('how') == 'file' and not u:
+        # the file itself carries the mark
+        if any((d.get('kw') or {}).get('safe') is False for _, docs in case['files'] for d in docs):
+            how = 'file'
     if '"include"' not in json.dumps([d['raw'] for d in case['docs']]) and '!rec' not in json.dumps([d['raw'] for d in case['docs']]):
         return None          # (shrunk) no include node left: outside the family
     log = io['cfg'].get('log', [])
